@@ -76,7 +76,7 @@ import (
 //@   ghost result.owner := nil
 //@   ensures  r:     result == ite(len(old(l.elems)) == 0, nil, old(l.elems[len(l.elems)-1]))
 //@   ensures  inv:   listInv(l)
-//@   ensures  elems: l.elems == ite(len(old(l.elems)) > 0, old(l.elems)[:len(old(l.elems))-1], old(l.elems))
+//@   ensures  elems: (len(old(l.elems)) > 0 ==> l.elems == old(l.elems)[:len(old(l.elems))-1]) && (len(old(l.elems)) == 0 ==> l.elems == old(l.elems))
 //@   ensures  out:   result != nil ==> result.next == nil && result.prev == nil && result.owner == nil
 //@   ensures  nodes: forall m *Node[T] :: m != result && m != &l.root && (len(old(l.elems)) < 2 || m != old(l.elems[len(l.elems)-2])) ==>
 //@                       m.next == old(m.next) && m.prev == old(m.prev)
@@ -91,7 +91,7 @@ import (
 //@   ghost result.owner := nil
 //@   ensures  r:     result == ite(len(old(l.elems)) == 0, nil, old(l.elems[0]))
 //@   ensures  inv:   listInv(l)
-//@   ensures  elems: l.elems == ite(len(old(l.elems)) > 0, old(l.elems)[1:], old(l.elems))
+//@   ensures  elems: (len(old(l.elems)) > 0 ==> l.elems == old(l.elems)[1:]) && (len(old(l.elems)) == 0 ==> l.elems == old(l.elems))
 //@   ensures  out:   result != nil ==> result.next == nil && result.prev == nil && result.owner == nil
 //@   ensures  nodes: forall m *Node[T] :: m != result && m != &l.root && (len(old(l.elems)) < 2 || m != old(l.elems[1])) ==>
 //@                       m.next == old(m.next) && m.prev == old(m.prev)
@@ -151,7 +151,7 @@ import (
 //@   modifies Node[model.File].next, Node[model.File].prev, Node[model.File].owner, List[model.File].elems, file.arr
 //@   ensures  r:      result == ite(f == nil || len(old(f.l.elems)) == 0, nil, old(f.l.elems[len(f.l.elems)-1]))
 //@   ensures  inv:    f != nil ==> fileInv(f) && sortedF(f)
-//@   ensures  elems:  f != nil ==> f.l.elems == ite(len(old(f.l.elems)) > 0, old(f.l.elems)[:len(old(f.l.elems))-1], old(f.l.elems))
+//@   ensures  elems:  f != nil ==> (len(old(f.l.elems)) > 0 ==> f.l.elems == old(f.l.elems)[:len(old(f.l.elems))-1]) && (len(old(f.l.elems)) == 0 ==> f.l.elems == old(f.l.elems))
 //@   ensures  out:    result != nil ==> result.next == nil && result.prev == nil && result.owner == nil
 //@   ensures  nodes:  forall m *Node[model.File] :: m != result && m.owner == old(m.owner) && (f == nil || old(m.owner) != &f.l) && (f == nil || m != &f.l.root) ==>
 //@                       m.next == old(m.next) && m.prev == old(m.prev)
@@ -165,7 +165,7 @@ import (
 //@            file.arr, mem[*Node[model.File]]
 //@   ensures  r:      result == ite(f == nil || len(old(f.l.elems)) == 0, nil, old(f.l.elems[0]))
 //@   ensures  inv:    f != nil ==> fileInv(f) && sortedF(f)
-//@   ensures  elems:  f != nil ==> f.l.elems == ite(len(old(f.l.elems)) > 0, old(f.l.elems)[1:], old(f.l.elems))
+//@   ensures  elems:  f != nil ==> (len(old(f.l.elems)) > 0 ==> f.l.elems == old(f.l.elems)[1:]) && (len(old(f.l.elems)) == 0 ==> f.l.elems == old(f.l.elems))
 //@   ensures  out:    result != nil ==> result.next == nil && result.prev == nil && result.owner == nil
 //@   ensures  nodes:  forall m *Node[model.File] :: m != result && m.owner == old(m.owner) && (f == nil || old(m.owner) != &f.l) && (f == nil || m != &f.l.root) ==>
 //@                       m.next == old(m.next) && m.prev == old(m.prev)
@@ -173,6 +173,31 @@ import (
 //@   ensures  lists:  forall k *List[model.File] :: (f == nil || k != &f.l) ==> k.elems == old(k.elems) && k.base == old(k.base)
 //@   ensures  files:  forall g *file :: g != f ==> g.arr == old(g.arr)
 //@   ensures  mem:    f != nil ==> memframe(old(f.arr))
+
+// Collecting old versions up to a horizon removes exactly the versions that have a
+// successor not newer than the horizon (a prefix: the list is sorted), never the last one.
+//@ func lemmaCollect
+//@   requires inv:      f != nil && fileInv(f) && sortedF(f) && positiveF(f) && !f.withoutSearch
+//@   ensures  inv:      fileInv(f) && sortedF(f) && positiveF(f) && !f.withoutSearch
+//@   ensures  count:    len(result) + len(f.l.elems) == len(old(f.l.elems))
+//@   ensures  rest:     f.l.elems == old(f.l.elems)[len(result):]
+//@   ensures  removed:  forall i int :: 0 <= i && i < len(result) ==> *result[i] == *old(f.l.elems)[i].v
+//@   ensures  succ:     forall i int :: 0 <= i && i < len(result) ==> old(f.l.elems)[i+1].v.Seq <= horizon
+//@   ensures  keeplast: len(old(f.l.elems)) > 0 ==> len(f.l.elems) >= 1
+//@   ensures  maximal:  len(f.l.elems) >= 2 ==> f.l.elems[1].v.Seq > horizon
+//@   ensures  values:   forall m *Node[model.File] :: m.v.Seq == old(m.v.Seq) && m.v.Key == old(m.v.Key) && m.v.TxId == old(m.v.TxId) && m.v.ContentId == old(m.v.ContentId)
+//@   modifies Node[model.File].next, Node[model.File].prev, Node[model.File].owner, List[model.File].elems, List[model.File].base,
+//@            file.arr, mem[*Node[model.File]]
+//@ loop lemmaCollect>(*file).IterateBeforeSeq$2#1
+//@   invariant jump:    jump$1 == 0
+//@   invariant inv:     f != nil && fileInv(f) && sortedF(f) && positiveF(f) && !f.withoutSearch
+//@   invariant cursor:  len(f.l.elems) >= 1 && n == f.l.elems[0]
+//@   invariant count:   len(removed) + len(f.l.elems) == len(old(f.l.elems))
+//@   invariant rest:    f.l.elems == old(f.l.elems)[len(removed):]
+//@   invariant removed: forall i int :: 0 <= i && i < len(removed) ==> *removed[i] == *old(f.l.elems)[i].v
+//@   invariant succ:    forall i int :: 0 <= i && i < len(removed) ==> old(f.l.elems)[i+1].v.Seq <= horizon
+//@   invariant values:  forall m *Node[model.File] :: m.v.Seq == old(m.v.Seq) && m.v.Key == old(m.v.Key) && m.v.TxId == old(m.v.TxId) && m.v.ContentId == old(m.v.ContentId)
+//@   invariant seq:     seq == horizon
 
 // lemmaCollect is the collection loop of the old-version collector on one version
 // list (same shape as usecase/core.DeleteOld's inner loop: range over
@@ -183,4 +208,19 @@ func lemmaCollect(f *file, horizon sequence.Seq) (removed []model.File) {
 		f.PopFront()
 	}
 	return removed
+}
+
+// Lookups strictly after the horizon are unchanged by a collection (lemma over the
+// contracts of LastBefore and lemmaCollect only).  At the horizon itself the same holds
+// whenever the horizon is not the sequence number of a version, which is how the
+// collector is called (horizons and version numbers are distinct draws of one counter).
+//@ func lemmaCollectKeepsLookups
+//@   requires inv:   f != nil && fileInv(f) && sortedF(f) && positiveF(f) && !f.withoutSearch
+//@   requires after: p > horizon || (p == horizon && forall i int :: 0 <= i && i < len(f.l.elems) ==> f.l.elems[i].v.Seq != horizon)
+//@   ensures  same:  before == after
+func lemmaCollectKeepsLookups(f *file, horizon, p sequence.Seq) (before, after model.File) {
+	before = f.LastBefore(p)
+	lemmaCollect(f, horizon)
+	after = f.LastBefore(p)
+	return before, after
 }
